@@ -134,6 +134,8 @@ def random_table(rng, nchains=None, nmodels=None, max_res=6, serial0=None, multi
     if rng.random() < 0.1 and len(chains) > 1:
         rng.shuffle(skeleton)                          # chains interleaved residue by residue
     models = list(range(1, nmodels + 1))
+    if rng.random() < 0.12:
+        models = list(range(0, nmodels))          # numbered from 0 (trajectory frames): 0 is a model number like any other
     if rng.random() < 0.2:
         models = sorted(rng.sample(range(1, 60), nmodels)) if rng.random() < 0.8 else sorted(rng.sample(range(1, 9999), nmodels))
     natoms = sum(len(s[5]) for s in skeleton) * nmodels
